@@ -499,3 +499,131 @@ func TestSeveralPacingRules(t *testing.T) {
 		}
 	})
 }
+
+// TestReloadDuringCheck: a request on an idle resource with three pacing rules [A,B,C] is somewhere inside its rule checks
+// (stopped at any of the checker's atomic accesses) when the rules of the resource are reloaded with one rule edited,
+// removed or added, through either loader. Old and new list agree on the untouched rules, and those keep their pacing
+// state across the reload; so whichever list decides the request, it is admitted without a wait (everything is idle) and it
+// is charged by every untouched rule exactly once: a second request at the same instant is asked to wait the sum of the
+// untouched rules' spacings (the clock does not move while it sleeps), plus the edited/added rule's spacing if the first
+// request was decided by the new list.
+func TestReloadDuringCheck(t *testing.T) {
+	hx.Check(t, hx.N{Quick: 4000, Thorough: 60000}, func(t *rapid.T, c *hx.Case) {
+		hx.Reset(hx.Epoch + uint64(rapid.IntRange(0, 999).Draw(t, "t0")))
+		s := sched.New("tc.", "chain.checked")
+		defer s.Close()
+		pool := []float64{1, 2, 4, 5, 10, 20, 50}
+		perm := rapid.Permutation(pool).Draw(t, "thresholds")
+		mk := func(id string, T float64) *flow.Rule {
+			return &flow.Rule{ID: id, Resource: "t", TokenCalculateStrategy: flow.Direct, ControlBehavior: flow.Throttling, Threshold: T, MaxQueueingTimeMs: 3600000}
+		}
+		old := []*flow.Rule{mk("A", perm[0]), mk("B", perm[1]), mk("C", perm[2])}
+		if _, err := flow.LoadRules(old); err != nil || len(flow.GetRulesOfResource("t")) != 3 {
+			t.Fatalf("LoadRules: %v", err)
+		}
+		// the new list
+		var next []*flow.Rule
+		for _, r := range old {
+			x := *r
+			next = append(next, &x)
+		}
+		var untouched []*flow.Rule
+		var fresh *flow.Rule // the edited or added rule: present in the new list only (with pacing state of its own)
+		k := rapid.IntRange(0, 2).Draw(t, "which")
+		kind := rapid.SampledFrom([]string{"edit", "remove", "add"}).Draw(t, "reloadKind")
+		switch kind {
+		case "edit":
+			next[k].Threshold = perm[3]
+			fresh = next[k]
+			for i, r := range next {
+				if i != k {
+					untouched = append(untouched, r)
+				}
+			}
+		case "remove":
+			next = append(next[:k:k], next[k+1:]...)
+			untouched = next
+		case "add":
+			untouched = append(untouched, next...)
+			fresh = mk("X", perm[3])
+			at := rapid.IntRange(0, 3).Draw(t, "at")
+			next = append(next[:at:at], append([]*flow.Rule{fresh}, next[at:]...)...)
+		}
+		perRes := rapid.Bool().Draw(t, "perResourceLoader")
+		var firstWait int64
+		var firstBlocked bool
+		hx.C.OnSleep = func(d time.Duration) { firstWait += int64(d) }
+		defer func() { hx.C.OnSleep = nil }()
+		caller := s.Spawn(func() {
+			e, blk := sentinel.Entry("t")
+			firstBlocked = blk != nil
+			if e != nil {
+				e.Exit()
+			}
+		})
+		var loadErr error
+		loader := s.Spawn(func() {
+			if perRes {
+				_, loadErr = flow.LoadRulesOfResource("t", next)
+			} else {
+				_, loadErr = flow.LoadRules(next)
+			}
+		})
+		reloadAfter := rapid.IntRange(0, 14).Draw(t, "callerStepsBeforeTheReload")
+		inside := false
+		for i := 0; i < reloadAfter && !caller.Done; i++ {
+			p := s.Step(caller)
+			c.Op("caller -> %s", p)
+			inside = !caller.Done
+		}
+		for !loader.Done {
+			s.Step(loader)
+		}
+		c.Op("reload (%s rule %d, per-resource loader=%v) with the caller inside=%v", kind, k, perRes, inside)
+		if !s.FinishAll(3000) {
+			t.Fatalf("the caller did not terminate")
+		}
+		if caller.Panic != nil || loader.Panic != nil {
+			t.Fatalf("panic: caller %v loader %v", caller.Panic, loader.Panic)
+		}
+		if loadErr != nil || len(flow.GetRulesOfResource("t")) != len(next) {
+			t.Fatalf("reload: %v", loadErr)
+		}
+		hx.C.OnSleep = nil
+		if firstBlocked || firstWait != 0 {
+			t.Fatalf("a request on an idle resource (three pacing rules, queueing limit 1 h) raced with a reload (%s rule %d): blocked=%v wait=%dns, want admitted at once under the old list and under the new one", kind, k, firstBlocked, firstWait)
+		}
+		hx.C.TakeSlept()
+		e, blk := sentinel.Entry("t")
+		var wait int64
+		for _, d := range hx.C.TakeSlept() {
+			wait += int64(d)
+		}
+		if e != nil {
+			e.Exit()
+		}
+		var base int64
+		for _, r := range untouched {
+			base += need(1, r.Threshold, 0)
+		}
+		with := base
+		if fresh != nil {
+			with += need(1, fresh.Threshold, 0)
+		}
+		if blk != nil || (wait != base && wait != with) {
+			t.Fatalf("after a request raced with a reload (%s rule %d, per-resource loader=%v, caller inside its checks=%v), the next request at the same instant: blocked=%v, asked to wait %dns in total; the untouched rules %v charge exactly %dns (plus %dns if the new list decided the first request): the first request was not checked once by each untouched rule", kind, k, perRes, inside, blk != nil, wait, thresholdsOf(untouched), base, with-base)
+		}
+		if inside {
+			c.NonTrivial()
+			c.Class("reload-while-the-caller-is-inside-its-checks")
+		}
+	})
+}
+
+func thresholdsOf(rs []*flow.Rule) []float64 {
+	var out []float64
+	for _, r := range rs {
+		out = append(out, r.Threshold)
+	}
+	return out
+}
